@@ -366,3 +366,21 @@ Theorem C09_next_skipnext_buffers_bounded :
            (brp_run_allocs hok hdrdec o seek file w).
 Proof. exact brp_run_allocs_bound. Qed.
 Print Assumptions C09_next_skipnext_buffers_bounded.
+
+(* ---- (10) Resume's version probe runs under the DEFAULT header limit -------------------------------------- *)
+(* refuted: "OpenReadWrite rejects a first header over the configured MaxAllowedHeaderSize before allocating":
+   with a 1 KiB limit, four bytes declaring 24 MiB make the probe request 24 MiB and fail with unexpected EOF
+   (store.ResumableVersion calls ReadVersion without the caller's options; known finding
+   resume-first-header-over-limit, corpus/C09/resume-first-header-over-limit.case).  What does hold for every
+   input is C09_resume_buffers_bounded above: that buffer is within default_maxh (32 MiB), the payload
+   header's within the configured limit. *)
+Theorem C09_resume_version_probe_ignores_header_limit_refuted :
+  exists hdrdec o roots file a,
+    resume_allocs hdrdec KBlockstore true o roots file [] = [a] /\ w_maxh o < a /\
+    tot_resume hdrdec o roots file = TErr EUnexpectedEof.
+Proof.
+  exact (ex_intro _ _ (ex_intro _ _ (ex_intro _ _ (ex_intro _ _ (ex_intro _ _
+    (conj (proj1 resume_probe_over_limit)
+          (conj (proj2 (proj2 resume_probe_over_limit)) (proj1 (proj2 resume_probe_over_limit))))))))).
+Qed.
+Print Assumptions C09_resume_version_probe_ignores_header_limit_refuted.
